@@ -972,10 +972,10 @@ theorem clsDisjoint_spec {s0 s1 : Cls} (h : clsDisjoint s0 s1 = true) :
   · cases h
 
 /-- **merging two letter branches with disjoint, category-free classes keeps the successes** -/
-theorem merge_letters_sound (e : Env) (ht : TextOK e) (h : Bool) (rtl : Bool) (po o : Nat) (p1 p2 : CP) (s0 s1 s' : Cls)
+theorem merge_letters_sound (e : Env) (ht : TextOK e) (h : Bool) (rtl : Bool) (po' po o : Nat) (p1 p2 : CP) (s0 s1 s' : Cls)
     (h0 : letterCls p1 = some s0) (h1 : letterCls p2 = some s1) (hd : clsDisjoint s0 s1 = true)
     (hm : mergeCls s0 s1 = some s') :
-    AEq h e rtl [.chr po (.set s')] [.chr po p1, .chr o p2] := by
+    AEq h e rtl [.chr po' (.set s')] [.chr po p1, .chr o p2] := by
   obtain ⟨rs, rs', rfl, rfl, hdis⟩ := clsDisjoint_spec hd
   intro st
   refine LRel.of_eq ?_
@@ -1013,7 +1013,7 @@ theorem aEq_mergeGo (e : Env) (ht : TextOK e) (h rtl : Bool) : ∀ (rest out : L
     have hmerge : ∀ (po o : Nat) (pp p2 : CP) (S s : Cls) (c' : Bool), nd = .chr o p2 → letterCls p2 = some S →
         out.getLast? = some (.chr po pp) →
         ((letterCls pp).bind (fun s0 => if false || clsDisjoint s0 S then mergeCls s0 S else none)) = some s →
-        AEq h e rtl (mergeGo false (out.dropLast ++ [.chr po (.set s)]) true c' rest) (out ++ nd :: rest) := by
+        AEq h e rtl (mergeGo false (out.dropLast ++ [.chr (mergedOpts po pp) (.set s)]) true c' rest) (out ++ nd :: rest) := by
       intro po o pp p2 S s c' hnd hS hl hb
       obtain ⟨s0, h0, hd, hm⟩ := merge_bind_spec hb
       have hout : out.dropLast ++ [.chr po pp] = out := dropLast_append_of_getLast? hl
@@ -1022,7 +1022,7 @@ theorem aEq_mergeGo (e : Env) (ht : TextOK e) (h rtl : Bool) : ∀ (rest out : L
       conv => rhs; rw [← hout, List.append_assoc]
       refine AEq.append (AEq.refl _ _ _ _) ?_
       subst hnd
-      exact AEq.append (a' := [.chr po pp, .chr o p2]) (merge_letters_sound e ht h rtl po o pp p2 s0 S s h0 hS hd hm)
+      exact AEq.append (a' := [.chr po pp, .chr o p2]) (merge_letters_sound e ht h rtl (mergedOpts po pp) po o pp p2 s0 S s h0 hS hd hm)
         (AEq.refl _ _ _ _)
     simp only [mergeGo]
     split
